@@ -311,6 +311,53 @@ def real_check(case):
     return Res(v, o=(T > 50, C > 1, pol), tr=2 * len(wavs) * 2)
 
 
+# ------------------------------------------------------------------ batches larger than every internal block size
+def big_cases(tier, seed):
+    from mc import thresholds
+    mined = thresholds.beyond(thresholds.mine([waveforms], 200, 40000), cap=45000)
+    return [(n,) for n in sorted(set(mined + [4200, 8300, 66000]))]
+
+
+def big_check(case):
+    """a batch of N waveforms: the features of rows picked around every threshold equal their features alone (weakly positive spikes included)"""
+    n = case[0]
+    T, C = 20, 2
+    rng = np.random.default_rng(n)
+    tmpl_neg = np.zeros(T)
+    tmpl_neg[[6, 7, 8, 9, 12]] = (-3, -9, -20, -6, 5)
+    tmpl_pos = np.zeros(T)
+    tmpl_pos[[6, 7, 8, 10, 11]] = (2, 10, 4, -8, -3)             # positive peak, |peak/trough| <= 1.5: the documented trough swap
+    batch = np.zeros((n, T, C))
+    kind = rng.integers(0, 3, n)
+    amp = 1.0 + rng.integers(0, 5, n)
+    for kk, tm in ((0, tmpl_neg), (1, tmpl_pos), (2, -tmpl_neg * 0.5 + np.r_[np.zeros(13), -12, np.zeros(6)])):
+        idx = np.flatnonzero(kind == kk)
+        batch[idx, :, 0] = tm[None, :] * amp[idx, None]
+        batch[idx, :, 1] = 0.3 * tm[None, :] * amp[idx, None]
+    batch = np.roll(batch, 1, axis=2) * 1.0
+    batch[::2] = batch[::2, :, ::-1]
+    v = []
+    try:
+        df = features(batch, 5)
+    except Exception as e:
+        return Res([("big-batch:exc:%s" % type(e).__name__, "batch of %d waveforms: %s: %s" % (n, type(e).__name__, e))])
+    cols, arr = _rows(df)
+    if arr.shape[0] != n:
+        return Res([("big-batch:rows", "%d rows for %d waveforms" % (arr.shape[0], n))])
+    from mc import thresholds
+    marks = sorted({0, 1, n - 1, n // 2} | {m + d for m in thresholds.mine([waveforms], 200, 40000) + [4096, 8192, 65536] for d in (-1, 0, 1, 54) if 0 <= m + d < n})
+    pick = sorted(set(marks) | set(rng.integers(0, n, 40).tolist()))
+    ntr = 1
+    for i in pick:
+        _, a1 = _rows(features(batch[i][None], 5))
+        ntr += 1
+        if not np.array_equal(a1[0], arr[i], equal_nan=True):
+            v.append(("batch-dependence:large-batch", "waveform #%d of a batch of %d: features in the batch %r differ from its features alone %r"
+                      % (i, n, dict(zip(cols, arr[i])), dict(zip(cols, a1[0])))))
+            break
+    return Res(v, o=n, tr=ntr)
+
+
 CHECK = {
     "property": "C14",
     "rule": "every waveform of length T over a 5-value alphabet (1 channel) / 3-value alphabet (2-3 channels) whose largest |deflection| is not on the "
@@ -323,6 +370,7 @@ CHECK = {
     ],
     "clauses": [
         Clause("small", "all small waveforms, batch + singletons + scaling + channel permutation", cases=small_cases, check=small_check),
+        Clause("large-batches", "batches just beyond every size constant mined from ibldsp.waveforms (and 4200 / 8300 / 66000 waveforms): rows = features alone", cases=big_cases, check=big_check),
         Clause("realistic", "model spikes of either polarity, lengths 10-200, 1-40 channels, NaN channels, extrema on the last samples", cases=real_cases, check=real_check),
         _layouts.make_clause(__import__("checks._layout_specs", fromlist=["x"]).c14()),
     ],
